@@ -282,7 +282,7 @@ def run(ctx):
                     if part:
                         items.append((mode, s, [[x] for x in part]))
             else:
-                per = max(1, min(BATCH, (len(ids) + ctx.ncpu - 1) // ctx.ncpu))
+                per = BATCH
                 for i in range(0, len(ids), per):
                     items.append((mode, s, [ids[i:i + per]]))
     t_end = ctx.t0 + ctx.deadline_s
